@@ -38,10 +38,10 @@ type Intro struct {
 }
 
 type Parsed struct {
-	Burn, MaxSize          uint32
-	Precision              uint8
+	Burn, MaxSize           uint32
+	Precision               uint8
 	Coin, UAVersion, Remark string
-	Genesis                [32]byte
+	Genesis                 [32]byte
 }
 
 // Verify returns every defect of the introduction that can be established (fields behind a structural defect
